@@ -136,9 +136,9 @@ theorem decodeNlsf_spec {rate : Rate} {sig n0 : Nat} {res : List Int} {d : Dec}
     decodeNlsf rate sig d = ((n0, res), after d (encNlsf rate sig n0 res)) := by
   unfold encNlsf at h ⊢
   unfold decodeNlsf
+  simp only
   generalize (nlsfCB rate).cb1.drop (sig / 2 * (nlsfCB rate).nVectors) = T at h ⊢
   rw [reads_cons_append] at h
-  simp only
   rw [sym_spec h.1]
   simp only
   rw [nlsfResLoop_spec _ _ _ _ (by rw [ecIx_length, hl]) h.2]
@@ -171,8 +171,9 @@ theorem decodeLag_spec {rate : Rate} {cc prevSig : Nat} {prevLag lag : Int} {d :
   generalize silk_pitch_lag_iCDF = TL at h ⊢
   generalize pitchLagLowBits rate = TB at h ⊢
   by_cases hc : cc = 2 ∧ prevSig = 2
-  · by_cases hf : lagDeltaFits cc prevSig prevLag lag = true
-    · simp only [hc, and_self, if_true, hf, List.append_nil] at h ⊢
+  · rcases hc with ⟨rfl, rfl⟩
+    by_cases hf : lagDeltaFits 2 2 prevLag lag = true
+    · simp only [and_self, if_true, hf, List.append_nil] at h ⊢
       rw [sym_spec h]
       simp only [lagDeltaFits, decide_eq_true_eq] at hf
       have hpos : (lag - prevLag + 9).toNat > 0 := by omega
@@ -180,13 +181,15 @@ theorem decodeLag_spec {rate : Rate} {cc prevSig : Nat} {prevLag lag : Int} {d :
       refine Prod.ext ?_ rfl
       simp only
       omega
-    · simp only [hc, and_self, if_true, hf, if_false, Bool.false_eq_true, List.singleton_append] at h ⊢
-      rw [reads_cons_append, reads_cons_append] at h
-      rw [sym_spec h.1]
+    · simp only [and_self, if_true, hf, if_false, Bool.false_eq_true, List.singleton_append] at h ⊢
+      rw [reads_cons_append] at h
+      rcases h with ⟨h1, h2⟩
+      rw [reads_cons_append] at h2
+      rw [sym_spec h1]
       simp only [gt_iff_lt, Nat.lt_irrefl, if_false]
-      rw [sym_spec h.2.1]
+      rw [sym_spec h2.1]
       simp only
-      rw [sym_spec h.2.2]
+      rw [sym_spec h2.2]
       simp only [after_cons_cons]
       exact Prod.ext (lag_split lag _ hlag) rfl
   · have hf : lagDeltaFits cc prevSig prevLag lag = false := by
@@ -202,29 +205,29 @@ theorem decodeLag_spec {rate : Rate} {cc prevSig : Nat} {prevLag lag : Int} {d :
     exact Prod.ext (lag_split lag _ hlag) rfl
 
 theorem decodeLtp_spec {nbSubfr cc per scale : Nat} {ltp : List Nat} {d : Dec} (hl : ltp.length = nbSubfr)
-    (hsc : cc ≠ 0 → scale = 0)
-    (h : Reads d (ic per silk_LTP_per_index_iCDF ::
-      (encSyms ([silk_LTP_gain_iCDF_0, silk_LTP_gain_iCDF_1, silk_LTP_gain_iCDF_2].getD per []) ltp ++
-       (if cc = 0 then [ic scale silk_LTPscale_iCDF] else [])))) :
-    decodeLtp nbSubfr cc d = ((per, ltp, scale), after d (ic per silk_LTP_per_index_iCDF ::
-      (encSyms ([silk_LTP_gain_iCDF_0, silk_LTP_gain_iCDF_1, silk_LTP_gain_iCDF_2].getD per []) ltp ++
-       (if cc = 0 then [ic scale silk_LTPscale_iCDF] else [])))) := by
+    (hsc : cc ≠ 0 → scale = 0) (h1 : Reads d [ic per silk_LTP_per_index_iCDF])
+    (h2 : Reads (after d [ic per silk_LTP_per_index_iCDF])
+      (encSyms ([silk_LTP_gain_iCDF_0, silk_LTP_gain_iCDF_1, silk_LTP_gain_iCDF_2].getD per []) ltp))
+    (h3 : Reads (after (after d [ic per silk_LTP_per_index_iCDF])
+        (encSyms ([silk_LTP_gain_iCDF_0, silk_LTP_gain_iCDF_1, silk_LTP_gain_iCDF_2].getD per []) ltp))
+      (if cc = 0 then [ic scale silk_LTPscale_iCDF] else [])) :
+    decodeLtp nbSubfr cc d = ((per, ltp, scale), after (after (after d [ic per silk_LTP_per_index_iCDF])
+        (encSyms ([silk_LTP_gain_iCDF_0, silk_LTP_gain_iCDF_1, silk_LTP_gain_iCDF_2].getD per []) ltp))
+      (if cc = 0 then [ic scale silk_LTPscale_iCDF] else [])) := by
   unfold decodeLtp
   subst hl
-  generalize silk_LTP_per_index_iCDF = TP at h ⊢
-  generalize [silk_LTP_gain_iCDF_0, silk_LTP_gain_iCDF_1, silk_LTP_gain_iCDF_2] = TG at h ⊢
-  generalize silk_LTPscale_iCDF = TS at h ⊢
-  rw [reads_cons_append, reads_append] at h
-  rw [after_cons, after_append]
+  generalize silk_LTP_per_index_iCDF = TP at h1 h2 h3 ⊢
+  generalize [silk_LTP_gain_iCDF_0, silk_LTP_gain_iCDF_1, silk_LTP_gain_iCDF_2] = TG at h2 h3 ⊢
+  generalize silk_LTPscale_iCDF = TS at h3 ⊢
   simp only
-  rw [sym_spec h.1]
+  rw [sym_spec h1]
   simp only
-  rw [symLoop_spec _ _ _ h.2.1]
+  rw [symLoop_spec _ _ _ h2]
   simp only
   by_cases hc : cc = 0
-  · simp only [hc, if_true] at h ⊢
-    rw [sym_spec h.2.2]
-  · simp only [hc, if_false] at h ⊢
+  · simp only [hc, if_true] at h3 ⊢
+    rw [sym_spec h3]
+  · simp only [hc, if_false] at h3 ⊢
     rw [hsc hc, after_nil]
 
 theorem decodeVoiced_spec {rate : Rate} {nbSubfr sig cc prevSig : Nat} {prevLag : Int} {ix : Indices} {d : Dec}
@@ -239,22 +242,23 @@ theorem decodeVoiced_spec {rate : Rate} {nbSubfr sig cc prevSig : Nat} {prevLag 
   unfold encVoiced at h ⊢
   unfold decodeVoiced
   by_cases hs : sig = 2
-  · simp only [hs, if_true, List.append_assoc, List.cons_append, List.nil_append] at h hlag hltp ⊢
-    generalize pitchContour rate nbSubfr = TC at h ⊢
-    rw [reads_append, reads_cons_append] at h
-    rw [after_append, after_cons]
+  · simp only [hs, if_true] at h hlag hltp ⊢
     unfold decodePitchLtp
-    rw [decodeLag_spec hlag h.1]
+    generalize pitchContour rate nbSubfr = TC at h ⊢
+    rw [reads_append, reads_append, reads_append, reads_cons_append] at h
+    simp only [after_append, after_cons_cons] at h ⊢
+    rcases h with ⟨⟨⟨h1, h2, h2'⟩, h3⟩, h4⟩
+    rw [decodeLag_spec hlag h1]
     simp only
-    rw [sym_spec h.2.1]
+    rw [sym_spec h2]
     simp only
-    rw [decodeLtp_spec hltp (fun hc => hsc (fun hh => hc hh.2)) h.2.2]
+    rw [decodeLtp_spec hltp (fun hc => hsc (fun hh => hc hh.2)) h2' h3 h4]
   · simp only [hs, if_false] at h hlag hltp ⊢
     rw [hlag, hcon hs, hper hs, hsc (fun hh => hs hh.1), List.length_eq_zero_iff.mp hltp, after_nil]
 
 /-- `silk_decode_indices` inverts `silk_encode_indices`. -/
 theorem decodeIndices_spec {rate : Rate} {nbSubfr : Nat} {lbrr v : Bool} {cc prevSig : Nat} {prevLag : Int}
-    {ix : Indices} {ops : List Op} {d : Dec} (hix : IxOk rate nbSubfr v cc ix)
+    {ix : Indices} {ops : List Op} {d : Dec} (hix : IxOk rate nbSubfr v cc ix) (hnb : 1 ≤ nbSubfr)
     (hops : encodeIndices rate nbSubfr lbrr cc prevSig prevLag ix = .ok ops) (h : Reads d ops) :
     decodeIndices rate nbSubfr v cc prevSig prevLag d = (ix, after d ops) := by
   unfold encodeIndices at hops
